@@ -980,6 +980,16 @@ static int record_ret_stack(struct mcount_thread_data *mtdp, enum uftrace_record
 	if (type == UFTRACE_EXIT)
 		timestamp = mrstack->end_time;
 
+	/*
+	 * The depth field of a record has 10 bits.  A deeper call (possible
+	 * with --max-stack > 1024) cannot be stored: drop it like a call beyond
+	 * --max-stack rather than let the depth wrap and spill into the address.
+	 */
+	if (unlikely(mrstack->depth >= (1U << 10))) {
+		mrstack->flags |= MCOUNT_FL_WRITTEN;
+		return 0;
+	}
+
 	if (unlikely(mtdp->nr_events)) {
 		/* save async events first (if any) */
 		while (mtdp->nr_events && mtdp->event[0].time < timestamp) {
